@@ -20,6 +20,14 @@
    crafted (by running the same skeleton here) so that the pivot of row/column k is exactly zero or
    just below / above zero, non-square shapes; QR: every shape M>=N and N>M up to 5x5 (larger for
    Fp), zero columns, zero / negative / positive leading entries, 1x1 and Nx1 inputs.
+   ty 3 = StrictRat0: StrictRat with the sqrt stand-in x^3+7x (zero at zero, like the true square
+   root): Householder on a zero (sub-)column divides 0 / 0 and the MODEL PREDICTS the panic `(2)`
+   (instrumented transcriptions, Model/DecompDiv.v; for ty 2 and ty 3 the model predicts value /
+   absence / panic).  QR inputs: zero matrix, zero first column, one entry away from it at every
+   position, zero / duplicated later columns, and a two-reflection sparse family (column 0 = x0 e_0,
+   column 1 = t e_0: 0 / 0 in the SECOND reflection; language exception: rows <= 4, entries (n 1)
+   with |n| <= 2, column 0 zero below the diagonal); Cholesky / LDL^T: fixed singular inputs,
+   exhaustive symmetric 2x2 over -2..2, crafted zero pivots at every column, non-square.
    StrictRat (ty 2): EXHAUSTIVE all 2x2 over {-1,0,1,2}, all symmetric 2x2 over -3..3 and all
    symmetric 3x3 over {-1,0,1} for Cholesky and LDL^T; the documented zero-pivot inputs ([[0]],
    [[0,1],[1,0]], PSD [[1,1],[1,1]], singular [[4,2,1],[2,1,3],[1,3,9]]); every family above for
@@ -37,7 +45,7 @@ ASSUMPTIONS = [
     "Rat inputs: Cholesky up to 4x4 and QR with at most one reflection (the polynomial stand-in cubes the size of the numbers twice per reflection); Fp covers sizes 1..8 and every QR shape up to 5x5; on Fp the order is the order of residues, so `<= 0` is `== 0` there and the sign branch of Householder is `!= 0`",
     "Cholesky completeness (present <-> positive definite), R upper triangular and regularity from full column rank are proved over real closed fields with sqrt = Num.sqrt (every rcfType; no instance is constructed here) and, in oracle-parametric form, over any real field for runs on which the oracle answered correctly (concrete instances: Coq's reals for Cholesky, a rational run for QR)",
     "floats ('to rounding accuracy') are not modelled",
-    "'never a panic' is not a theorem (the model's division is total, Panic is not a model outcome): it is observed by the correspondence — every entry point runs under catch_unwind and element type 2 (StrictRat) turns a division by zero into a panic, so absence has to be decided before any division by the pivot",
+    "division by zero is a MODEL OUTCOME for element types 2 (StrictRat) and 3 (StrictRat0, sqrt stand-in x^3+7x, zero at zero): the model side runs the division-instrumented transcriptions (Model/DecompDiv.v, strict_div) and predicts value / absence / panic; theorems: LDL^T never divides by zero (no hypothesis), Cholesky never over an ordered field with a sqrt oracle, QR panics exactly when a reflection meets u of length zero (over a real closed field: exactly on a zero sub-column; never for independent columns). Other panic sources (allocation, operators of user element types) are not modelled",
 ]
 
 
@@ -64,6 +72,14 @@ class Rat:
 class SRat(Rat):
     """StrictRat: the values of Rat; only the implementation's division differs (panics on 0)"""
     ty = 2
+
+
+class SRat0(Rat):
+    """StrictRat0: StrictRat with the sqrt stand-in x^3 + 7x (zero at zero, positive on positive
+    arguments): Householder on a zero (sub-)column divides 0 / 0 -> the model predicts a panic"""
+    ty = 3
+    @staticmethod
+    def sqrt(x): return x * x * x + 7 * x
 
 
 class Fp:
@@ -188,7 +204,8 @@ def square_family(rng, n, fam):
 
 
 def gen(tier, rng):
-    cases = list(_gen(tier, rng)) + list(_float_cases(tier, rng)) + list(_strict_cases(tier, rng))
+    cases = list(_gen(tier, rng)) + list(_float_cases(tier, rng)) + list(_strict_cases(tier, rng)) \
+        + list(_strict0_cases(tier, rng))
     rng.shuffle(cases)
     return cases
 
@@ -390,6 +407,100 @@ def _strict_cases(tier, rng):
             for i in range(1, r):
                 z[i][0] = 0
             yield case(3, F, names_of(rng), conv(z))
+
+
+def _strict0_cases(tier, rng):
+    """ty 3 = StrictRat0 (sqrt stand-in zero at zero): QR inputs on which a reflection meets a zero
+    vector (predicted PANIC), next to inputs one entry away from them (predicted value), and the
+    Cholesky / LDL^T families again (predicted: never a panic)"""
+    quick = tier == "quick"
+    rep = 1 if quick else 5
+    F = SRat0
+    conv = lambda m: [[F.of(x) for x in r] for r in m]
+    # ---- QR with at most one reflection (the language limit of the rational types) and N > M
+    for (r, c) in [(r, c) for r in range(1, 7) for c in range(1, 6)]:
+        if not (c > r or min(r - 1, c) <= 1):
+            continue
+        yield case(3, F, names_of(rng), conv([[0] * c for _ in range(r)]))
+        for _ in range(4 * rep):
+            m = [[rng.randrange(-4, 5) for _ in range(c)] for _ in range(r)]
+            yield case(3, F, names_of(rng), conv(m))
+            # zero FIRST column (rank deficient; the only reflected column here): 0 / 0 when r >= 2
+            z = [list(row) for row in m]
+            for i in range(r):
+                z[i][0] = 0
+            yield case(3, F, names_of(rng), conv(z))
+            # ... one entry away from it, at every position of the column
+            k = rng.randrange(r)
+            z2 = [list(row) for row in z]
+            z2[k][0] = rng.choice([-2, -1, 1, 3, Fraction(1, 10 ** 6)])
+            yield case(3, F, names_of(rng), conv(z2))
+            # some other column zero / two equal columns (rank deficient, but never reflected here)
+            if c >= 2:
+                z3 = [list(row) for row in m]
+                j = rng.randrange(1, c)
+                for i in range(r):
+                    z3[i][j] = 0 if rng.random() < 0.5 else z3[i][0]
+                yield case(3, F, names_of(rng), conv(z3))
+    # ---- QR with TWO reflections on sparse small inputs (inside the language for ty 3 only when
+    #      every entry is an integer in -2..2 and rows <= 4): column 0 = x0 e_0, column 1 = t e_0:
+    #      the first reflection leaves column 1 zero below the diagonal -> second reflection 0 / 0
+    for (r, c) in [(3, 2), (3, 3), (4, 2)]:
+        for x0 in (-2, -1, 1, 2):
+            for t in (-1, 0, 2):
+                m = [[0] * c for _ in range(r)]
+                m[0][0] = x0
+                m[0][1] = t
+                if c == 3:
+                    m[1][2] = 1
+                yield case(3, F, names_of(rng), conv(m))
+                m2 = [list(row) for row in m]
+                m2[rng.randrange(1, r)][1] = rng.choice([-1, 1, 2])
+                yield case(3, F, names_of(rng), conv(m2))
+    # ---- Cholesky / LDL^T: fixed singular inputs, exhaustive symmetric 2x2, crafted zero pivots
+    fixed = [[[0]], [[0, 1], [1, 0]], [[1, 1], [1, 1]], [[4, 2, 1], [2, 1, 3], [1, 3, 9]],
+             [[0, 0], [0, 0]], [[1, 2], [2, 4]], [[2, 1, 1], [1, 1, 1], [1, 1, 1]], [[1, 3], [3, 8]]]
+    for m in fixed:
+        for op in (1, 2):
+            yield case(op, F, (0, 1), conv(m))
+    for a, b, c in itertools.product(range(-2, 3), repeat=3):
+        for op in (1, 2):
+            yield case(op, F, (2, 5), conv([[a, b], [b, c]]))
+    for n in range(1, 6):
+        for fam in range(7):
+            for _ in range(3 * rep):
+                yield case(2, F, names_of(rng), conv(square_family(rng, n, fam)))
+                if n <= 3:
+                    yield case(1, F, names_of(rng), conv(square_family(rng, n, fam)))
+        for k in range(n):
+            for _ in range(2 * rep):
+                a = conv(square_family(rng, n, rng.choice([0, 1, 4, 5])))
+                s0 = ldlt_prefix_sum(F, a, k)
+                if s0 is None:
+                    continue
+                for delta in (0, 1):
+                    b = [list(r) for r in a]
+                    b[k][k] = F.add(s0, F.of(delta))
+                    yield case(2, F, names_of(rng), b)
+        if n <= 3:
+            for k in range(n):
+                for _ in range(2 * rep):
+                    a = conv(square_family(rng, n, rng.choice([1, 5, 0])))
+                    pre = chol_prefix(F, a, k)
+                    if pre is None:
+                        continue
+                    _, cur = pre
+                    s0 = F.of(0)
+                    for t in range(k):
+                        s0 = F.add(s0, F.mul(cur[t], cur[t]))
+                    for delta in (0, -1, 1):
+                        b = [list(r) for r in a]
+                        b[k][k] = F.add(s0, F.of(delta))
+                        yield case(1, F, names_of(rng), b)
+    for (r, c) in [(1, 2), (2, 1), (2, 3), (3, 2)]:
+        m = [[rng.randrange(-3, 4) for _ in range(c)] for _ in range(r)]
+        for op in (1, 2):
+            yield case(op, F, names_of(rng), conv(m))
 
 
 def frac_rank(m):
